@@ -499,3 +499,83 @@ Section NormProofs.
     replace (Nat.min k k') with k by lia. reflexivity.
   Qed.
 End NormProofs.
+
+(* ------------------------------------------------------------------ several writer handles on one archive *)
+Section HandleProofs.
+  Variable A : Type.
+
+  Lemma step_false_disk (s s1 : hstate A) e : step false s e = Some s1 ->
+    odflt [] (hs_disk s1) = odflt [] (hs_disk s) ++ appended [e] /\
+    (hs_disk s <> None -> hs_disk s1 <> None) /\ (appended [e] <> [] -> hs_disk s1 <> None).
+  Proof.
+    destruct e as [id|id x|id|id|]; cbn [step appended]; intro H.
+    - destruct (lookup id (hs_handles s)); [discriminate|]. inversion H; subst; cbn. rewrite app_nil_r.
+      repeat split; auto; try (intro C; exfalso; apply C; reflexivity).
+    - destruct (lookup id (hs_handles s)) as [p|]; [|discriminate].
+      destruct (Nat.eqb p (dlen (hs_disk s))) eqn:E; [|discriminate]. inversion H; subst; cbn.
+      repeat split; intros; discriminate.
+    - destruct (lookup id (hs_handles s)) as [p|]; [|discriminate].
+      destruct (Nat.eqb p (dlen (hs_disk s))) eqn:E; [|discriminate]. apply Nat.eqb_eq in E. inversion H; subst; cbn.
+      unfold dlen. rewrite firstn_all, app_nil_r. repeat split; intros; discriminate.
+    - destruct (lookup id (hs_handles s)) as [p|]; [|discriminate]. inversion H; subst; cbn. rewrite app_nil_r.
+      repeat split; auto; try (intro C; exfalso; apply C; reflexivity).
+    - inversion H; subst; cbn. rewrite app_nil_r. repeat split; auto; try (intro C; exfalso; apply C; reflexivity).
+  Qed.
+
+  Lemma appended_cons (e : event A) r : appended (e :: r) = appended [e] ++ appended r.
+  Proof. destruct e; reflexivity. Qed.
+
+  (* no finaliser: whatever handles are opened, left unclosed, reclaimed or killed, and whenever, the archive holds
+     exactly the base followed by every completed append, in order *)
+  Lemma run_false_disk : forall (evs : list (event A)) s s', run false s evs = Some s' ->
+    odflt [] (hs_disk s') = odflt [] (hs_disk s) ++ appended evs /\
+    (hs_disk s <> None -> hs_disk s' <> None) /\ (appended evs <> [] -> hs_disk s' <> None).
+  Proof.
+    induction evs as [|e r IH]; intros s s' H; cbn [run] in H.
+    - inversion H; subst. cbn. rewrite app_nil_r. repeat split; auto; try (intro C; exfalso; apply C; reflexivity).
+    - destruct (step false s e) as [s1|] eqn:E; [|discriminate].
+      destruct (step_false_disk _ _ _ E) as (S1 & S2 & S3). destruct (IH _ _ H) as (I1 & I2 & I3).
+      rewrite appended_cons. repeat split.
+      + rewrite I1, S1, app_assoc. reflexivity.
+      + auto.
+      + intro N. destruct (appended [e]) as [|x l] eqn:AE.
+        * apply I3. exact N.
+        * apply I2, S3. discriminate.
+  Qed.
+
+  (* a finaliser that closes: harmless exactly when the reclaimed handle still stands at the end of the archive *)
+  Lemma drop_closing_iff_current (s : hstate A) id p :
+    lookup id (hs_handles s) = Some p -> p <= dlen (hs_disk s) ->
+    exists s', step true s (EvDrop id) = Some s' /\
+               (odflt [] (hs_disk s') = odflt [] (hs_disk s) <-> p = dlen (hs_disk s)).
+  Proof.
+    intros L LE. cbn [step]. rewrite L. eexists; split; [reflexivity|]. cbn. unfold dlen in *. split.
+    - intro E. apply (f_equal (@List.length A)) in E. rewrite firstn_length in E. lia.
+    - intros ->. apply firstn_all.
+  Qed.
+
+  (* every prefix of an accepted history is accepted *)
+  Lemma run_prefix fin : forall (evs : list (event A)) s s' k, run fin s evs = Some s' -> exists s1, run fin s (firstn k evs) = Some s1.
+  Proof.
+    induction evs as [|e r IH]; intros s s' k H.
+    - rewrite firstn_nil. exists s. reflexivity.
+    - destruct k as [|k]; [exists s; reflexivity|]. cbn [run firstn] in *.
+      destruct (step fin s e) as [s1|]; [|discriminate]. eapply IH; eauto.
+  Qed.
+End HandleProofs.
+
+Lemma appended_hev nm (evs : list hev) :
+  appended (map (hev_event nm) evs) = map (fun e => mk_member nm (fst e) (snd e)) (happended evs).
+Proof. induction evs as [|e r IH]; [reflexivity|]. destruct e; cbn; rewrite ?IH; reflexivity. Qed.
+
+Lemma history_reader nm base (evs : list hev) s :
+  run false (hinit base) (map (hev_event nm) evs) = Some s ->
+  (base <> None \/ happended evs <> []) ->
+  hreader nm s = Opened (mview nm (odflt [] base ++ map (fun e => mk_member nm (fst e) (snd e)) (happended evs))).
+Proof.
+  intros R N. destruct (run_false_disk _ _ _ _ R) as (D1 & D2 & D3). cbn [hinit hs_disk] in *.
+  rewrite appended_hev in D1, D3. unfold hreader. destruct (hs_disk s) as [ms|] eqn:E.
+  - cbn in D1. rewrite D1. reflexivity.
+  - exfalso. destruct N as [N|N]; [apply D2; [exact N|reflexivity]|].
+    apply D3; [|reflexivity]. destruct (happended evs); [contradiction N; reflexivity|discriminate].
+Qed.
